@@ -402,6 +402,7 @@ def generic_rules(ctx, rule='RG'):
     n += consumed_argument_rules(ctx, rule, paths, only)
     n += blocking_under_lock_rules(ctx, rule, paths, only)
     n += language_pitfall_rules(ctx, rule, paths, only)
+    n += undefined_name_rules(ctx, rule, paths, only)
     return n
 
 
@@ -934,3 +935,67 @@ def byte_image(func, sink):
     except ValueError:
         return None
     return results
+
+
+def undefined_name_rules(ctx, rule, paths, only=None):
+    """Every name a function reads resolves: it is a local, a name of an enclosing function, a name bound at module level (import,
+    def, class, assignment - anywhere at module level, also under if / try), a name some function binds through `global`, or a
+    builtin.  Scopes come from the compiler's own symbol table (symtable) over the file's text, so comprehension scopes, nested
+    functions, `global` / `nonlocal` are exactly the interpreter's.  A function-level `import x` that is deleted while `x.f()` stays
+    (typically inside an exception handler, where no test goes) turns the handler into a NameError."""
+    import builtins
+    import symtable
+    m = ctx.model
+    n = 0
+    for path in paths:
+        mod = m.mod(path)
+        try:
+            top = symtable.symtable(mod.text, path, 'exec')
+        except SyntaxError:
+            continue
+        known = {s.get_name() for s in top.get_symbols() if s.is_assigned() or s.is_imported() or s.is_namespace()}
+        known |= set(dir(builtins)) | {'__file__', '__name__', '__doc__', '__package__', '__spec__', '__loader__', '__builtins__', '__path__', '__class__'}
+        try:
+            raw = ast.parse(mod.text)
+        except SyntaxError:
+            continue
+        if any(isinstance(x, ast.ImportFrom) and any(a.name == '*' for a in x.names) for x in ast.walk(raw)):
+            continue                                        # a star import binds names this analysis cannot see
+        funcs = []
+
+        def rec(t, qual, owner):
+            for ch in t.get_children():
+                kind = ch.get_type()
+                kind = kind if isinstance(kind, str) else str(kind).split('.')[-1].lower()
+                nm = ch.get_name()
+                if kind == 'class':
+                    rec(ch, qual + [nm], None)
+                elif kind == 'function':
+                    if owner is None and nm not in ('lambda', 'listcomp', 'genexpr', 'setcomp', 'dictcomp'):
+                        q = '.'.join(qual + [nm])
+                        funcs.append((q, ch))
+                        rec(ch, qual + [nm], q)
+                    else:
+                        funcs.append((owner, ch))           # lambdas, comprehensions and nested functions count for their owner
+                        rec(ch, qual, owner)
+                else:
+                    rec(ch, qual, owner)
+        rec(top, [], None)
+        for _, t in funcs:
+            known |= {s.get_name() for s in t.get_symbols() if s.is_declared_global() and s.is_assigned()}
+        missing = {}
+        for q, t in funcs:
+            for s in t.get_symbols():
+                if s.is_referenced() and s.is_global() and s.get_name() not in known:
+                    missing.setdefault(q, set()).add(s.get_name())
+        byq = {f.qualname: f for f in mod.all_funcs()}
+        for q in sorted({q for q, _ in funcs if q}):
+            if only is not None and (path, q) not in only:
+                continue
+            f = byq.get(q)
+            if f is None:
+                continue
+            n += 1
+            ctx.inst(rule, f, 'every-name-resolves', not missing.get(q), 'names read in %s that nothing binds (no local, module-level or builtin binding): %s '
+                     '- reaching the line raises NameError' % (q, sorted(missing.get(q, ()))))
+    return n
